@@ -488,6 +488,36 @@ OTHER_RAW = {
 }
 
 
+def _effective_writers(mod, func: str, depth: int = 0) -> Optional[Set[str]]:
+    """the known units on whose behalf `func` writes: itself when it is a unit the rules know; for a helper introduced
+    later, the functions of the module that call it (transitively).  None when nobody calls it."""
+    from ..absint import _known_units
+    known = _known_units().get(mod.rel, set())
+    if func in known or depth > 3:
+        return {func}
+    short = func.rsplit(".", 1)[-1]
+    cls = func.rsplit(".", 1)[0] if "." in func else None
+    mangled = f"_{cls}{short}" if cls and short.startswith("__") and not short.endswith("__") else None
+    callers: Set[str] = set()
+    for q, fn in mod.functions():
+        if q == func:
+            continue
+        for c in ast.walk(fn):
+            if isinstance(c, ast.Attribute) and c.attr in (short, mangled) and cls and (q.startswith(cls + ".") or mangled and c.attr == mangled):
+                callers.add(q)
+            elif isinstance(c, ast.Name) and c.id == short and cls is None:
+                callers.add(q)
+    if not callers:
+        return None
+    out: Set[str] = set()
+    for q in callers:
+        sub = _effective_writers(mod, q, depth + 1)
+        if sub is None:
+            return None
+        out |= sub
+    return out
+
+
 def rule_O1(ctx) -> None:
     n = {k: 0 for k in ALLOWED_WRITERS}
     for rel in ctx.repo.all_py():
@@ -500,7 +530,8 @@ def rule_O1(ctx) -> None:
             if w.attr == "<field>":
                 if key in OTHER_RAW:
                     continue
-                if w.module == M_INIT and w.func in ALLOWED_WRITERS["<field>"]:
+                eff = _effective_writers(mod, w.func) if w.module == M_INIT else None
+                if w.module == M_INIT and eff and eff <= ALLOWED_WRITERS["<field>"]:
                     n["<field>"] += 1
                     continue
                 if w.form == "dict" and not w.module.endswith("betterproto/__init__.py"):
@@ -510,7 +541,8 @@ def rule_O1(ctx) -> None:
                             "set the member through this path and call which_one_of / bytes")
                 continue
             n[w.attr] += 1
-            if w.module == M_INIT and w.func in ALLOWED_WRITERS[w.attr]:
+            eff = _effective_writers(mod, w.func) if w.module == M_INIT else None
+            if w.module == M_INIT and eff and eff <= ALLOWED_WRITERS[w.attr]:
                 continue
             ctx.refuted("O1", f"writer[{w.attr}]:{w.func}", w.form, f"{w.module}:{w.line}",
                         f"{w.func} writes {w.attr} ({w.target}); only {sorted(ALLOWED_WRITERS[w.attr])} may")
